@@ -611,6 +611,20 @@ def _refute_papi_1(unit, fn, repo, seed, backend):
             add("serde.mont_ser %s" % _h(b), _h(b))
             add("serde.sk_ser %s" % _h(b), _h(pre(b)))
             add("serde.xpk_rt %s" % _h(b), "%s %s" % (_h(b), _h(b)))
+        # the same impls through serde_json (JSON array of numbers -> visit_seq): must agree with the native decoders, octets kept as read
+        for b in encs:
+            a = O.ed_decode(b)
+            d = O.r255_decode(b)
+            v = int.from_bytes(b, "little")
+            add("serde.json_de vk %s" % _h(b), "ERR" if a is None else _h(b))
+            add("serde.json_de ed %s" % _h(b), "ERR" if a is None else _h(O.ed_encode(a)))
+            add("serde.json_de ris %s" % _h(b), "ERR" if d is None else _h(O.r255_encode(d)))
+            add("serde.json_de scalar %s" % _h(b), _h(b) if v < O.L else "ERR")
+            for kind in ("sk", "cey", "cris", "mont"):
+                add("serde.json_de %s %s" % (kind, _h(b)), _h(b))
+        for kind in ("vk", "sk", "ed", "ris", "cey", "cris", "mont", "scalar"):
+            for n in (0, 31, 33):
+                add("serde.json_de %s %s" % (kind, _h(bytes([1]) + bytes(n - 1) if n else b"")), "ERR")
         good = O.public_key(bytes([7]) * 32)
         sg = O.sign(bytes([7]) * 32, b"abc")
         for n in (0, 1, 31, 32, 33, 63, 64, 65):
